@@ -8,7 +8,7 @@
 (***************************************************************************)
 EXTENDS IntLane, Lanes, Json, TLC, SequencesExt
 
-CONSTANTS Tier, Seed
+CONSTANTS Tier, Seed, Only       \* Only = "all" | "cmp" (C15 re-uses the comparison calls alone)
 VARIABLES ph, call, res
 vars == <<ph, call, res>>
 
@@ -80,7 +80,8 @@ CallsOf(T) ==
     \cup [t : {T}, kind : {"x"},  op : {"cross"}, i : 1..NL(T), j : Lead4(NL(T)), k : {0}]
     \cup [t : {T}, kind : {"f"},  op : {"sum", "product"}, i : Lead4(NL(T)), j : Lead4(NL(T)), k : 0..3]
 
-Calls == UNION {CallsOf(T) : T \in Types}
+Calls == IF Only = "cmp" THEN UNION {[t : {T}, kind : {"b"}, op : CmpOps, i : Lead4(NL(T)), j : 1..NL(T), k : {0}] : T \in Types}
+         ELSE UNION {CallsOf(T) : T \in Types}
 
 Args(c) ==
     LET T == c.t IN
